@@ -41,6 +41,9 @@ pub enum Cond {
     Value,
     /// a condition that cannot be evaluated (undefined symbol): only where it must not be evaluated
     Unevaluable,
+    /// a condition that is not even an expression (`.if (`, `.if @0 == 1` as in a macro body that is
+    /// defined inside an unselected arm): the line is still a conditional directive and nests
+    Unparseable,
 }
 
 #[derive(Clone, Copy, PartialEq, Eq, Hash, Debug, PartialOrd, Ord)]
@@ -83,6 +86,7 @@ impl RefModel for CondModel {
             }
             if !assembling(s) {
                 v.push(Act::If(Cond::Unevaluable, false));
+                v.push(Act::If(Cond::Unparseable, false));
             }
         }
         if let Some(f) = s.stack.last() {
@@ -94,6 +98,10 @@ impl RefModel for CondModel {
                 // not evaluated when the parent is inactive or an arm was already taken
                 if !f.parent || f.taken {
                     v.push(Act::Elif(Cond::Unevaluable, false));
+                }
+                // (an .elif whose operand does not parse: only deep inside text that is skipped anyway)
+                if !f.parent {
+                    v.push(Act::Elif(Cond::Unparseable, false));
                 }
                 v.push(Act::Else);
             }
@@ -175,6 +183,7 @@ fn cond_text(c: Cond, truth: bool, elif: bool, hash: bool, salt: usize) -> Strin
             Cond::Lit => format!("{}elif {}", dot, if truth { 1 } else { 0 }),
             Cond::Value => format!("{}elif {}", dot, value),
             Cond::Equ => format!("{}elif k_cond {} 4", dot, if truth { "<" } else { ">" }),
+            Cond::Unparseable => format!("{}elif {}", dot, ["@1 > 2", ")(", "(", "1 +"][salt % 4]),
             _ => format!("{}elif undefined_cond_sym", dot),
         };
     }
@@ -188,6 +197,7 @@ fn cond_text(c: Cond, truth: bool, elif: bool, hash: bool, salt: usize) -> Strin
         Cond::HashIf => format!("#if {}", if truth { "2 - 1" } else { "1 - 1" }),
         Cond::Value => format!(".if {}", value),
         Cond::Unevaluable => ".if undefined_cond_sym".to_string(),
+        Cond::Unparseable => [".if @0 == 1", ".if (", ".ifdef", ".if 1 +", "#if )("][salt % 5].to_string(),
     }
 }
 
@@ -283,6 +293,9 @@ impl CondModel {
                         }
                         Cond::Unevaluable => {
                             features.insert("unevaluated-condition");
+                        }
+                        Cond::Unparseable => {
+                            features.insert("unparseable-condition-in-skipped-text");
                         }
                         Cond::Value => {
                             features.insert("numeric-value");
